@@ -153,6 +153,41 @@ pub fn resolve<'a>(v: &'a Value, p: &[Tok]) -> Option<&'a Value> {
     Some(cur)
 }
 
+/// a chain of `n` objects nested in each other, every level disclosable (recursive disclosures n levels deep):
+/// {"n1": {"keep": 1, "n2": {"keep": 2, ... "leaf": "innermost"}}}; marks innermost first. A restorer that is
+/// handed the disclosures innermost-first needs one pass per level.
+pub fn gen_chain(r: &mut Rng, n: usize) -> (Value, Vec<TPath>) {
+    let mut v = json!({"keep": n, "leaf": "innermost"});
+    for level in (1..n).rev() {
+        v = json!({"keep": level, format!("n{}", level + 1): v});
+    }
+    let claims = json!({"n1": v, "top": r.below(3)});
+    let mut marks: Vec<TPath> = Vec::new();
+    for level in (1..=n).rev() {
+        marks.push((1..=level).map(|l| Tok::Key(format!("n{}", l))).collect());
+    }
+    if r.chance(1, 2) {
+        // the innermost leaf too
+        let mut p: TPath = (1..=n).map(|l| Tok::Key(format!("n{}", l))).collect();
+        p.push(Tok::Key("leaf".to_string()));
+        marks.insert(0, p);
+    }
+    (claims, marks)
+}
+
+/// claims and a non-empty marking: usually a small random document, every 40th case a deep chain of recursive
+/// disclosures (9 to 14 levels)
+pub fn claims_and_marking(r: &mut Rng, i: usize, depth: u32, width: usize) -> (Value, Vec<TPath>) {
+    if i % 40 == 17 {
+        let levels = 9 + r.below(6);
+        gen_chain(r, levels)
+    } else {
+        let claims = gen_object(r, depth, width, 1);
+        let marks = gen_marking(r, &claims, true);
+        (claims, marks)
+    }
+}
+
 /// a subset of the nodes in post-order; the density varies per case
 pub fn gen_marking(r: &mut Rng, claims: &Value, nonempty: bool) -> Vec<TPath> {
     let nodes = all_nodes(claims);
